@@ -64,12 +64,14 @@ const TOKENS: [&str; 50] = [
 ];
 
 /// well-formed lines that take the less common lock paths (database switch, creation, named snapshots)
-const LINES: [&str; 30] = [
+const LINES: [&str; 35] = [
     "use-db r tokr", "use-db q tokq", "create-db c1 t1", "create-db c2 t2 newer", "snapshot false q r", "snapshot true q", "snapshot false",
     "keys", "set k v", "remove k", "increment n 1", "watch k", "unwatch-all", "create-user u1 pw", "debug list-dbs", "cluster-state",
     "replicate-since 10.0.0.1:3014 5", "replicate-since 10.0.0.1:3014 0",
     "set-safe k 2147483647 v", "set-safe k 2147483646 v", "snapshot false q", "create-db a/b t", "snapshot false a/b", "create-db a1 ta arbiter",
     "use-db a1 ta", "arbiter", "set-safe k 0 w", "set-safe k -1 w", "snapshot true q r", "remove n",
+    // (the permission list and token of the user whose session probes the attacker's database: values no set-permissions writes)
+    "set $$permission_$pu r", "set $$permission_$pu", "remove $$permission_$pu", "set $$user_pu", "set-permissions pu",
 ];
 
 fn gen_line(rng: &mut Rng) -> String {
@@ -210,6 +212,8 @@ fn execute(prog: Program) -> Outcome {
         admin.exec("set k 1");
         admin.exec("set x abc");
         admin.exec("create-db r tokr none");
+        admin.exec("create-user pu pupw");
+        admin.exec("set-permissions pu rwix *");
         admin.disconnect();
     }
     // (kept open for the whole run: the registered arbiter of the attacker's arbiter database)
@@ -242,6 +246,14 @@ fn execute(prog: Program) -> Outcome {
     let mut check = |out: &mut Outcome, line: &str, n: u64| -> bool {
         // give the node time to work (elections started by admin commands take a while)
         sleep_ms(20);
+        // a user-token session on the attacker's database (its replies are the attacker's business, a panic of its handler is not)
+        if let Some(mut u) = WireClient::connect(&tcp) {
+            u.greeting(500);
+            u.request("use-db q pu pupw", 500);
+            u.request("get k", 500);
+            u.request("set k 2", 500);
+            u.close();
+        }
         if prog.ticks {
             if prog.disk_error && !disk_error_armed {
                 disk_error_armed = true;
